@@ -68,6 +68,7 @@ class QasmVisitor:
         self._function_qreg_transform_map: deque = deque([])  # for nested functions
         self._global_creg_size_map: dict[str, int] = {}
         self._custom_gates: dict[str, qasm3_ast.QuantumGateDefinition] = {}
+        self._custom_gate_stack: list[str] = []  # gates currently being expanded
         self._external_gates: list[str] = [] if external_gates is None else external_gates
         self._subroutine_defns: dict[str, qasm3_ast.SubroutineDefinition] = {}
         self._check_only: bool = check_only
@@ -805,6 +806,11 @@ class QasmVisitor:
         if inverse:
             gate_definition_ops.reverse()
 
+        if gate_name in self._custom_gate_stack:
+            raise_qasm3_error(
+                f"Recursive definitions not allowed for gate {gate_name}", span=operation.span
+            )
+        self._custom_gate_stack.append(gate_name)
         self._push_context(Context.GATE)
         result = []
         for gate_op in gate_definition_ops:
@@ -832,6 +838,7 @@ class QasmVisitor:
                 )
 
         self._restore_context()
+        self._custom_gate_stack.pop()
 
         if self._check_only:
             return []
